@@ -14,9 +14,10 @@ fn pal(rng: &mut Rng) -> Vec<u8> {
     }
 }
 
-fn gen_searcher(rng: &mut Rng, pal: &[u8]) -> SearcherSpec {
+fn gen_searcher(rng: &mut Rng, pal: &[u8], many_ok: bool) -> SearcherSpec {
     let packed = rng.chance(1, 6);
-    let mut patterns = gen_patterns(rng, pal, false);
+    // rarely 100-300 patterns (the automatic kind selection switches representation)
+    let mut patterns = gen_patterns(rng, pal, many_ok && !packed);
     if packed {
         patterns.truncate(12);
     } else if rng.chance(1, 12) {
@@ -368,7 +369,7 @@ pub fn gen_thread(class: &str, seed: u64, idx: u64) -> ThreadScenario {
     };
     let long_patterns = class != "miri" && r.chance(1, 10);
     for i in 0..nsearch {
-        let mut s = gen_searcher(r, &pal);
+        let mut s = gen_searcher(r, &pal, class != "miri");
         if i == 0 {
             // the first searcher always supports stream search
             s.packed = false;
@@ -413,6 +414,7 @@ pub fn gen_thread(class: &str, seed: u64, idx: u64) -> ThreadScenario {
         sc.searchers.push(s);
     }
     let maxhay = if class == "miri" { 64 } else { 200 };
+    let big_hay = class != "miri" && !long_patterns && r.chance(1, 15);
     let nh = r.range(3, 5);
     for i in 0..nh {
         if i > 0 && r.chance(1, 3) {
@@ -437,6 +439,17 @@ pub fn gen_thread(class: &str, seed: u64, idx: u64) -> ThreadScenario {
         let h = gen_stream(r, &pal, &pats, target, spec.opts.case_insensitive, &mut planted);
         sc.fixed_hays.push(h);
     }
+    if big_hay {
+        // one haystack of 20-80 KB (length thresholds inside prefilters / packed searchers)
+        let spec = &sc.searchers[r.below(nsearch)];
+        let pats: Vec<Vec<u8>> = spec.patterns.iter().filter(|p| !p.is_empty()).cloned().collect();
+        let pats = if pats.is_empty() { vec![vec![pal[0]]] } else { pats };
+        let target = r.range(20_000, 80_000);
+        let mut planted = Vec::new();
+        let widepal: Vec<u8> = pal.iter().cloned().chain(b"xyz ".iter().cloned()).collect();
+        let h = gen_stream(r, &widepal, &pats, target, spec.opts.case_insensitive, &mut planted);
+        sc.fixed_hays.push(h);
+    }
     if long_patterns {
         let pats: Vec<Vec<u8>> = sc.searchers[0].patterns.clone();
         let maxl = pats.iter().map(|p| p.len()).max().unwrap_or(1);
@@ -454,7 +467,7 @@ pub fn gen_thread(class: &str, seed: u64, idx: u64) -> ThreadScenario {
         // mostly short histories; some long and a few very long ones on the same
         // long-lived searcher (adaptive heuristics / counters with thresholds)
         // long-pattern scenarios carry kilobytes per operation: keep the scripts short
-        "hist" if long_patterns => (1, 8, 30),
+        "hist" if long_patterns || big_hay => (1, 8, 30),
         "hist" => match r.weighted(&[80, 15, 5]) {
             0 => (1, 12, 40),
             1 => (1, 100, 300),
@@ -462,7 +475,7 @@ pub fn gen_thread(class: &str, seed: u64, idx: u64) -> ThreadScenario {
         },
         "miri" => (r.range(2, 3), 1, 3),
         _ => {
-            if r.chance(1, 10) && !long_patterns {
+            if r.chance(1, 10) && !long_patterns && !big_hay {
                 (r.range(2, 3), 20, 60)
             } else if r.chance(1, 12) {
                 (r.range(5, 6), 2, 5)
@@ -549,7 +562,7 @@ pub fn gen_thread(class: &str, seed: u64, idx: u64) -> ThreadScenario {
         sc.change_points.sort();
     } else {
         sc.policy = Policy::Random;
-        sc.density = if long_patterns {
+        sc.density = if long_patterns || big_hay {
             // kilobytes per operation: a context switch (a real thread hand-off)
             // at every few yield points would take seconds per run
             *r.pick(&[64u64, 256, 1024])
